@@ -17,6 +17,9 @@ def sh(cmd):
     return subprocess.run(cmd, shell=True, capture_output=True, text=True)
 
 
+os.environ['VERIF_EVIDENCE_DIR'] = os.path.join(os.path.dirname(os.path.dirname(os.path.abspath(__file__))), '.work', 'evidence-selftest')
+
+
 def main():
     st = sh('git -C /repo status --porcelain').stdout.strip()
     if st:
